@@ -41,4 +41,18 @@ mod c28_pageresource;
 #[cfg(kani)]
 mod obj;
 #[cfg(kani)]
+mod interference;
+#[cfg(kani)]
 mod c18_transitions;
+#[cfg(kani)]
+mod c17_forwarding;
+#[cfg(kani)]
+mod c34_immix;
+#[cfg(kani)]
+mod c24_layout;
+#[cfg(kani)]
+mod c19_blockpool;
+#[cfg(kani)]
+mod c08_interior;
+#[cfg(kani)]
+mod c37_glue;
